@@ -6,14 +6,14 @@ from vlib import vh_batch, drv_batch, enc, dec
 from props.c17 import same as lex_same
 
 MANIFEST = dict(
-    text="Lean theorems over the verified lexer mirror (Model/Lex) and a mirror of the routine that prints SQL string literals "
-         "(sqlparser's EscapeQuotedString, which prqlc calls with the raw value): every documented escape decodes to its character and every "
-         "string value has a spelling that decodes to it (prql_string_value, prql_quote_roundtrip); plain quote doubling round-trips through "
-         "the standard SQL string lexer for every string (sql_quote_std_roundtrip) and so does the emitter after a one-line repair "
-         "(sql_quote_patched_roundtrip), but the emitter as it is does NOT (sql_quote_roundtrip_counterexample: the value \\' ends the literal "
-         "early; values with '' lose a quote; sql_quote_roundtrip_partial covers all other strings), and no doubling emitter is safe for a "
-         "backslash-escaping reader (sql_quote_roundtrip_backslash_counterexample); decimal printing/parsing of every Int round-trips and "
-         "decimal / hex / octal / binary spellings denote their positional value within the lexer's digit limits (int_roundtrip, "
+    text="Lean theorems over the verified lexer mirror (Model/Lex) and a mirror of how prqlc prints an SQL string literal (the value with "
+         "every quote doubled, handed to sqlparser's EscapeQuotedString printer, which is mirrored too): every documented escape decodes to "
+         "its character and every string value has a spelling that decodes to it (prql_string_value, prql_quote_roundtrip); doubling followed by "
+         "sqlparser's 'may already be escaped' printer is plain quote doubling (sql_quote_eq_doubling) and the emitted literal is read back by the "
+         "standard SQL string lexer as exactly the value, ending exactly where the emitter ended it, for EVERY string (sql_quote_roundtrip: the "
+         "injection boundary; printer_alone_* record that sqlparser's printer without the doubling would not do); no doubling emitter is safe for "
+         "a backslash-escaping reader (sql_quote_roundtrip_backslash_counterexample, open finding); decimal printing/parsing of every Int "
+         "round-trips and decimal / hex / octal / binary spellings denote their positional value within the lexer's digit limits (int_roundtrip, "
          "prql_decimal_value, radix_value, with counterexamples for integers beyond i64); f-strings denote the concatenation of their parts "
          "(fstring_concat, fstring_fragment_roundtrip); relation literals evaluate to their rows (relation_literal). Tied to the code by: "
          "lexer value vs model for every quote style / escape form / raw string / f-string fragment of every string of length <= 3 over 13 "
@@ -22,9 +22,9 @@ MANIFEST = dict(
          "tokenised by sqlparser's tokenizer for that dialect and the literal must be exactly one string token with that value.",
     note="floats are compared through SQLite as f64 bit patterns (no IEEE model in Lean: floats are outside the theorems); dates and times "
          "are tied by correspondence only; the 11 non-SQLite dialects are judged by sqlparser's tokenizer for the dialect, not by a database. "
-         "Open findings: the string printer's 'already escaped' heuristic (SQL injection on every dialect for values containing \\' , value "
-         "change for ''), backslash as data on backslash-escaping dialects, quotes on BigQuery, float overflow printed as `inf`, integers "
-         "beyond i64 silently becoming floats, unparenthesised f-string operands on dialects without CONCAT.",
+         "Fixed in /repo: the string printer's 'already escaped' heuristic (938f352). Open findings: backslash as data on backslash-escaping "
+         "dialects, quotes on BigQuery, float overflow printed as `inf`, integers beyond i64 silently becoming floats, NUL inside a string, "
+         "unparenthesised f-string operands on dialects without CONCAT.",
     technique="Lean 4 proof (lexer mirror + string printer mirror + SQL string lexers) + exhaustive small-scope and random differential runs "
               "against the real lexer/compiler, SQLite as value oracle, sqlparser tokenizers as per-dialect oracle", ref="4/C08")
 
@@ -117,16 +117,27 @@ def single_token(line):
 
 
 def classify_string(dialect, v):
-    """known-finding predicates (call site + predicate on the value)"""
-    if "\\'" in v or "''" in v:
-        return "sqlparser-already-escaped-heuristic"
+    """finding classes (call site + predicate on the value).  Only ids that are `open` in known_findings.json excuse a failure: the
+    class `sqlparser-already-escaped-heuristic` is fixed (938f352), so a failure that lands in it is reported as a violation again."""
     if dialect in BACKSLASH and "\\" in v:
         return "backslash-in-string-on-backslash-escaping-dialect"
     if dialect == "bigquery" and "'" in v:
         return "quote-in-string-on-bigquery"
     if "\x00" in v:
         return "nul-character-in-string"
+    if "\\'" in v or "''" in v:
+        return "sqlparser-already-escaped-heuristic"
     return None
+
+
+STRING_CLASS_PRIORITY = ["backslash-in-string-on-backslash-escaping-dialect", "quote-in-string-on-bigquery", "nul-character-in-string",
+                         "sqlparser-already-escaped-heuristic"]
+
+
+def classify_strings(dialect, values):
+    """one statement, several string values: the open, independently sufficient causes first; the fixed class only if nothing else applies"""
+    cl = [classify_string(dialect, v) for v in values]
+    return next((c for c in STRING_CLASS_PRIORITY if c in cl), None)
 
 
 def sqlite_one(sql, setup=()):
@@ -561,7 +572,7 @@ def suite_fstrings(ctx, frags, dialects, stats, rng, n_random):
         res = sqlite_one(a["sql"], SETUP)
         stats["sqlite_exec"] += 1
         if res[0] != ["v"] or res[1] != [[want]]:
-            fid = next((classify_string("sqlite", x) for k, x in c if k == "F" and classify_string("sqlite", x)), None)
+            fid = classify_strings("sqlite", [x for k, x in c if k == "F"])
             stats["fail"][("sqlite-fstring", fid)] += 1
             ctx.oracle_failure(fid, f"f-string {s!r} evaluates to {str(res)[:120]}, expected {want!r}",
                                {"prql": f"from t | select {{v = {s}}}", "dialect": "sqlite", "sql": a["sql"], "expected": want, "observed": str(res)})
@@ -575,7 +586,7 @@ def suite_fstrings(ctx, frags, dialects, stats, rng, n_random):
         frs = [x for k, x in c if k == "F"] or ([""] if not c else [])
         got = string_tokens(sig_tokens(t))
         if "sql" not in a or got != [("SingleQuotedString", x) for x in frs] or t.get("statements") != 1:
-            fid = next((classify_string(d, x) for x in frs if classify_string(d, x)), None)
+            fid = classify_strings(d, frs)
             stats["fail"][(d + "-fstring", fid)] += 1
             ctx.oracle_failure(fid, f"sql.{d}: fragments of {s!r} are not read back as the string tokens {frs!r}",
                                {"prql": f"from t | select {{v = {s}}}", "dialect": d, "sql": a.get("sql"), "tokens": got, "err": t.get("tokenize_error") or t.get("parse_error")})
@@ -627,7 +638,7 @@ def suite_relation_literals(ctx, values, stats, rng, n):
         res = sqlite_one(a["sql"])
         stats["sqlite_exec"] += 1
         if res[0] != ["v", "w"] or res[1] != want:
-            fid = next((classify_string("sqlite", v) for v, _ in rows if classify_string("sqlite", v)), None)
+            fid = classify_strings("sqlite", [v for v, _ in rows])
             stats["fail"][("sqlite-rel", fid)] += 1
             ctx.oracle_failure(fid, f"relation literal rows come back as {str(res)[:160]}, expected {want!r}",
                                {"prql": s, "dialect": "sqlite", "sql": a["sql"], "expected": want, "observed": str(res)})
@@ -653,8 +664,8 @@ def random_values(rng, n):
 
 def run(ctx):
     br = vlib.standard_proof_obligations(ctx, ["PrqlModel.Props.C08"], ["Lex", "Dialects"],
-        required_theorems=["prql_string_value", "prql_quote_roundtrip", "sql_quote_std_roundtrip", "sql_quote_roundtrip_partial",
-                           "sql_quote_roundtrip_counterexample", "sql_quote_patched_roundtrip", "sql_quote_roundtrip_backslash_counterexample",
+        required_theorems=["prql_string_value", "prql_quote_roundtrip", "sql_quote_roundtrip", "sql_quote_eq_doubling", "sql_quote_std_roundtrip",
+                           "printer_alone_counterexample", "sql_quote_roundtrip_backslash_counterexample",
                            "int_roundtrip", "prql_decimal_value", "radix_value", "int_literal_exact_counterexample", "fstring_concat",
                            "fstring_fragment_roundtrip", "relation_literal"])
     thorough = ctx.tier == "thorough"
@@ -716,7 +727,8 @@ def run(ctx):
         "property_failures_by_site_and_class": {f"{k[0]}:{k[1]}": n for k, n in sorted(stats["fail"].items(), key=str)},
     }
     ctx.coverage_extra["timing_s"] = {k: v for k, v in stats.items() if k.startswith("t_")}
-    ctx.sample({"value": "\\' OR 1=1 --", "prql": "from t | filter name == \"\\\\' OR 1=1 --\"", "sql": "SELECT * FROM t WHERE name = '\\' OR 1=1 --'"})
+    ctx.sample({"value": "\\' OR 1=1 --", "prql": "from t | filter name == \"\\\\' OR 1=1 --\"", "sql": "SELECT * FROM t WHERE name = '\\'' OR 1=1 --'",
+                "reads_back_as": "\\' OR 1=1 --"})
 
 
 def replay(obj):
